@@ -209,6 +209,24 @@ def gen(rng, tier):
             hide = (victim,)            # leaderless only in the metadata seen at creation
         cases.append(make_case(parts, leaders, nb, fb, grp, source="client" if i % 4 else "hosts",
                                coord=rng.randint(1, nb) if grp != "none" else None, hide=hide, kind="leaderless"))
+    # E: ByTime fallback for a time at which the broker holds no segment: it answers an EMPTY offset list (error 0), so no start
+    #    offset can be determined for the partitions that need the fallback
+    for i in range(24 if tier == "quick" else 600):
+        parts = {}
+        for t in ((T1,) if i % 3 else (T1, T2)):
+            for p in range(rng.randint(1, 3)):
+                parts[(t, p)] = rng.choice(LATTICE)
+        grp = ("none", "none", "kafka", "zk")[i % 4]
+        if grp != "none":
+            parts = {tp: (e, l, None) for tp, (e, l, c) in parts.items()}      # nothing committed: every partition needs the fallback
+        nb = rng.randint(1, 2)
+        c = make_case(parts, _leaders(rng, parts, nb), nb, "bytime", grp, source="client" if i % 4 else "hosts",
+                      coord=rng.randint(1, nb) if grp != "none" else None, kind="bytime_no_offset")
+        victims = rng.sample(sorted(parts), rng.randint(1, len(parts)))
+        for tp in victims:
+            c["cluster"]["by_time"][tp] = None
+        c["meta"]["notime"] = [list(tp) for tp in victims]
+        cases.append(c)
     # the brokers may list topics and partitions in any order (every third case of the random families)
     orng = random.Random(rng.randint(0, 10 ** 9))
     for c in cases:
@@ -259,7 +277,9 @@ def oracle(case, recs, cl):
     noleader = set(tp for tp in parts if m["leaders"][tp] < 0) | hide
     anyc = group and any(c is not None for (_, _, c) in parts.values())
     needs_fb = [tp for tp in parts if tp in noleader or start_offset(m, tp)[1] == "fallback"]
-    may_fail = bool(noleader) or (m["fallback"] == "bytime" and anyc and bool(needs_fb))
+    notime = set(tuple(x) for x in m.get("notime", []))
+    unanswerable = sorted(tp for tp in notime if tp not in noleader and start_offset(m, tp)[1] == "fallback")
+    may_fail = bool(noleader) or (m["fallback"] == "bytime" and anyc and bool(needs_fb)) or bool(unanswerable)
     if res.name == "err":
         if not may_fail:
             fails.append("C07: create() failed with %s although every partition has a determinable start offset "
@@ -267,6 +287,10 @@ def oracle(case, recs, cl):
         return fails
     if res.name != "ok":
         return ["C07: create() returned %s" % dumps(res)[:100]]
+    if unanswerable:
+        first = {(t, p): off for (t, p, off) in fetch_offsets_of(recs[m["ipoll"]])} if m["ipoll"] is not None and len(recs) > m["ipoll"] else {}
+        return ["C07-empty-offset-list: the broker reported no offset (empty list, error 0) for the fallback time of %s, no start offset can be "
+                "determined, yet create() succeeded; first fetch at %s" % (unanswerable, [first.get(tp) for tp in unanswerable])]
     if m["ipoll"] is None or len(recs) <= m["ipoll"]:
         return fails
 
